@@ -3,6 +3,7 @@ package main
 // SMT-LIB emission (two flavours) and the solver portfolio.
 
 import (
+	"regexp"
 	"bytes"
 	"context"
 	"fmt"
@@ -31,28 +32,90 @@ var solvers = []solverSpec{
 
 // emit renders one obligation.
 func (e *Engine) emit(o *Oblig, lambda bool, withModel bool) string {
-	// cone of influence over definitions
-	need := map[string]bool{}
-	symbolsOf(o.goal.s, need)
-	for _, f := range e.facts[:o.nfacts] {
-		symbolsOf(f.t.s, need)
-	}
-	for _, f := range e.gfacts {
-		symbolsOf(f.t.s, need)
-	}
-	for _, f := range o.extraFacts {
-		symbolsOf(f.s, need)
-	}
-	for _, f := range o.xFacts {
-		symbolsOf(f.t.s, need)
-	}
-	defs := append(append([]Def(nil), e.defs[:o.ndefs]...), o.xDefs...)
-	for i := len(defs) - 1; i >= 0; i-- {
-		d := defs[i]
-		if need[d.name] && d.body != "" {
-			symbolsOf(d.body, need)
+	// Relevance: start from the goal; a fact is kept when it shares a specific (non-ubiquitous) symbol with the
+	// cone, or consists of ubiquitous symbols only (frame axioms, heap facts); iterate to a fixpoint.  Sound:
+	// dropping assumptions can only make an obligation harder to discharge.
+	allDefs := append(append([]Def(nil), e.defs[:o.ndefs]...), o.xDefs...)
+	defBody := map[string]string{}
+	for _, d := range allDefs {
+		if d.body != "" {
+			defBody[d.name] = d.body
 		}
 	}
+	need := map[string]bool{}
+	var closeOver func(sym string)
+	closeOver = func(sym string) {
+		if need[sym] {
+			return
+		}
+		need[sym] = true
+		if b, ok := defBody[sym]; ok {
+			ss := map[string]bool{}
+			symbolsOf(b, ss)
+			for x := range ss {
+				closeOver(x)
+			}
+		}
+	}
+	addSyms := func(text string) {
+		ss := map[string]bool{}
+		symbolsOf(text, ss)
+		for x := range ss {
+			closeOver(x)
+		}
+	}
+	addSyms(o.goal.s)
+	for _, f := range o.extraFacts {
+		addSyms(f.s)
+	}
+	type factRec struct {
+		text string
+		syms []string // specific symbols
+		kept bool
+	}
+	var recs []*factRec
+	collect := func(text string) {
+		ss := map[string]bool{}
+		symbolsOf(text, ss)
+		r := &factRec{text: text}
+		bound := boundVars(text)
+		for x := range ss {
+			if !ubiquitous(x) && !bound[x] {
+				r.syms = append(r.syms, x)
+			}
+		}
+		recs = append(recs, r)
+	}
+	for _, f := range e.gfacts {
+		collect(f.t.s)
+	}
+	for _, f := range e.facts[:o.nfacts] {
+		collect(f.t.s)
+	}
+	for _, f := range o.xFacts {
+		collect(f.t.s)
+	}
+	for changed := true; changed; {
+		changed = false
+		for _, r := range recs {
+			if r.kept {
+				continue
+			}
+			rel := len(r.syms) == 0
+			for _, x := range r.syms {
+				if need[x] {
+					rel = true
+					break
+				}
+			}
+			if rel {
+				r.kept = true
+				changed = true
+				addSyms(r.text)
+			}
+		}
+	}
+	defs := allDefs
 	var b strings.Builder
 	if withModel {
 		b.WriteString("(set-option :produce-models true)\n")
@@ -83,17 +146,13 @@ func (e *Engine) emit(o *Oblig, lambda bool, withModel bool) string {
 			fmt.Fprintf(&b, "(define-fun %s () %s %s)\n", d.name, d.sort, d.body)
 		}
 	}
-	for _, f := range e.gfacts {
-		fmt.Fprintf(&b, "(assert %s)\n", f.t.s)
-	}
-	for _, f := range e.facts[:o.nfacts] {
-		fmt.Fprintf(&b, "(assert %s)\n", f.t.s)
+	for _, r := range recs {
+		if r.kept {
+			fmt.Fprintf(&b, "(assert %s)\n", r.text)
+		}
 	}
 	for _, f := range o.extraFacts {
 		fmt.Fprintf(&b, "(assert %s)\n", f.s)
-	}
-	for _, f := range o.xFacts {
-		fmt.Fprintf(&b, "(assert %s)\n", f.t.s)
 	}
 	// ground extensionality for the string identities in the cone: distinct identities differ in length or in a byte
 	var ids []T
@@ -351,3 +410,27 @@ func solveAll(results []*FuncResult, dir string, timeoutS int, workers int, cros
 
 // strIDsAt: string identities that existed when the obligation was created (global list; scoped ones are attached).
 func (e *Engine) strIDsAt(o *Oblig) []T { return e.strIDs }
+
+// ubiquitous symbols connect everything; they do not make a fact relevant on their own.
+func ubiquitous(x string) bool {
+	for _, p := range []string{"pc!", "alloc", "Mem", "H_", "H!", "MapP", "MapV", "MapN", "g_MapP", "g_MapV", "g_MapN", "c!", "slen", "sarr", "select", "store", "and", "or", "not", "=>", "=", "<=", "<", "+", "-", "*", "ite", "forall", "exists", "Int", "div", "mod", "true", "false", "as", "const", "Array", "lambda", "let", "!", ":pattern", "str_of", "sconcat", "dig", "blktype", "maptype"} {
+		if x == p || (strings.HasSuffix(p, "!") || p == "alloc" || p == "Mem" || p == "H_" || strings.HasPrefix(p, "Map") || strings.HasPrefix(p, "g_Map")) && strings.HasPrefix(x, p) {
+			return true
+		}
+	}
+	return false
+}
+
+var boundVarRe = regexp.MustCompile(`\(([A-Za-z_][^\s()]*) Int\)`)
+
+// boundVars: names bound by quantifiers / lambdas in an SMT text.
+func boundVars(text string) map[string]bool {
+	out := map[string]bool{}
+	if !strings.Contains(text, "forall") && !strings.Contains(text, "exists") && !strings.Contains(text, "lambda") {
+		return out
+	}
+	for _, m := range boundVarRe.FindAllStringSubmatch(text, -1) {
+		out[m[1]] = true
+	}
+	return out
+}
